@@ -11,6 +11,30 @@ fn is_smb_reply(r: &[u8]) -> bool {
 }
 
 fn judge(payload: &[u8], reply: Option<&[u8]>, carrier: &str, later: bool, idx: usize, t: &mut Tally, v: &mut Vec<Violation>) {
+    // Several NetBIOS session messages in one segment: the first one is the request that has to
+    // get its matching response (a responder may answer the others behind it, or not).
+    let mut multi = false;
+    let mut payload = payload;
+    if payload.len() >= 8 && payload[0] == 0 && payload[1] == 0 {
+        let n = ((payload[2] as usize) << 8) | payload[3] as usize;
+        if n >= 32 && n + 4 < payload.len() && matches!(smb::classify(&payload[..4 + n]), SmbClass::Smb1Negotiate { .. } | SmbClass::Smb1SessionSetup | SmbClass::Smb2Negotiate { .. } | SmbClass::Smb2SessionSetup) {
+            payload = &payload[..4 + n];
+            multi = true;
+        }
+    }
+    let mut reply = reply;
+    if multi {
+        if let Some(r) = reply {
+            if r.len() >= 4 && r[0] == 0 {
+                let n = ((r[1] as usize & 1) << 16) | ((r[2] as usize) << 8) | r[3] as usize;
+                if n + 4 < r.len() {
+                    reply = Some(&r[..4 + n]);
+                }
+            }
+        }
+    }
+    let carrier = if multi { format!("{}+multi", carrier) } else { carrier.to_string() };
+    let carrier = &carrier[..];
     let class = smb::classify(payload);
     let mut bad = |rule: &str, key: String, detail: String| {
         v.push(Violation {
